@@ -60,8 +60,18 @@ func (x *Exec) addrRootComp(v ssa.Value, out modset) {
 			n, s := x.elemComp(xt.Elem())
 			out.at(n, s, a.X)
 		case *types.Pointer:
-			switch a.X.(type) {
-			case *ssa.FieldAddr, *ssa.IndexAddr:
+			at := xt.Elem().Underlying().(*types.Array)
+			switch b := a.X.(type) {
+			case *ssa.FieldAddr:
+				// array embedded in a struct: the elements live in a row of their own
+				if _, isStruct := at.Elem().Underlying().(*types.Struct); isStruct {
+					// element objects: their fields are written through later FieldAddrs
+					return
+				}
+				n, s := x.elemComp(at.Elem())
+				out.at(n, s, b)
+				return
+			case *ssa.IndexAddr:
 				x.addrRootComp(a.X, out)
 				return
 			}
@@ -222,10 +232,45 @@ func loopInvariantValue(lp *loop, v ssa.Value) bool {
 	switch t := v.(type) {
 	case *ssa.Parameter, *ssa.Const, *ssa.Global, *ssa.FreeVar:
 		return true
+	case *ssa.FieldAddr:
+		if !lp.blocks[t.Block()] {
+			return true
+		}
+		// pure address computation on an invariant base
+		return loopInvariantValue(lp, t.X)
 	case ssa.Instruction:
 		return !lp.blocks[t.Block()]
 	}
 	return false
+}
+
+// addrOf evaluates an (invariant) address value that may not have been executed yet.
+func (x *Exec) addrOf(fr *Frame, v ssa.Value) Value {
+	if val, ok := fr.vals[v]; ok {
+		return val
+	}
+	if isConstLike(v) {
+		return x.get(fr, v)
+	}
+	if fa, ok := v.(*ssa.FieldAddr); ok {
+		base := x.addrOf(fr, fa.X)
+		if base == nil {
+			return nil
+		}
+		pt := fa.X.Type().Underlying().(*types.Pointer)
+		structT := pt.Elem()
+		ft := structT.Underlying().(*types.Struct).Field(fa.Field).Type()
+		switch b := base.(type) {
+		case *Term:
+			return &Addr{root: rField, structT: structT, field: fa.Field, ref: b, curT: ft}
+		case *Addr:
+			n := *b
+			n.path = append(append([]pathStep{}, b.path...), pathStep{isField: true, field: fa.Field, structT: structT})
+			n.curT = ft
+			return &n
+		}
+	}
+	return nil
 }
 
 // ---------------------------------------------------------------------------
@@ -410,7 +455,7 @@ func (x *Exec) enterLoop(fr *Frame, lp *loop, st *State) {
 		_, elemSort, _ := mi.sort.arrParts()
 		for _, r := range mi.refs {
 			var ref *Term
-			switch v := x.get(fr, r).(type) {
+			switch v := x.addrOf(fr, r).(type) {
 			case *Term:
 				if v.sort == SSlice {
 					ref = x.w.sArr(v)
@@ -420,6 +465,8 @@ func (x *Exec) enterLoop(fr *Frame, lp *loop, st *State) {
 			case *Addr:
 				if v.root == rCell && len(v.path) == 0 {
 					ref = v.ref
+				} else if row, ok := x.arrayFieldRow(st, v); ok {
+					ref = row
 				}
 			}
 			if ref == nil || ref.sort != SInt {
